@@ -117,9 +117,10 @@ Proof.
   intros H. injection H as <-. split; [assumption | split; reflexivity].
 Qed.
 
-(* the validity range of the lost exit, over the translated constant:
-   FACTOR * (3 - x) >= 3.  For the code's FACTOR = 3 this is x <= 2. *)
-Definition lost_exit_valid (x : R) : Prop := 3 <= IZR FACTOR * (3 - x).
+(* validity of the lost exit, over the translated constant: FACTOR * next_term bounds the
+   tail of the series from the first iteration on (ProofsSharp: true for x <= 53/20 when
+   FACTOR >= 3; Refuted: false at x = 27/10) *)
+Definition lost_exit_valid (x : R) : Prop := tail_ok (IZR FACTOR) x.
 
 Section Wrapper.
   Variables (phi c : Qc) (ev stake total : Z).
@@ -135,23 +136,23 @@ Section Wrapper.
     apply (link (QcR c) ev stake total (dom_ev _ _ _ _ D)). exact H.
   Qed.
 
-  Lemma w_lost_sound : (0 < FACTOR)%Z -> lost_exit_valid x ->
+  Lemma w_lost_sound : lost_exit_valid x ->
     lottery phi (Some c) ev stake total = Ok (Taylor Lost) -> win_prob (QcR c) stake total < draw ev.
   Proof.
-    intros HF Hv H. apply lottery_taylor in H. destruct H as (Ht & _ & H).
-    apply lost_sound in H; [| exact HF | rewrite x_real by exact Ht; apply (x_nonneg c ev); exact D
+    intros Hv H. apply lottery_taylor in H. destruct H as (Ht & _ & H).
+    apply lost_sound in H; [| rewrite x_real by exact Ht; apply (x_nonneg c ev); exact D
                             | rewrite x_real by exact Ht; exact Hv].
     rewrite q_real, x_real in H by (try exact Ht; apply D).
     apply (link (QcR c) ev stake total (dom_ev _ _ _ _ D)). exact H.
   Qed.
 
-  Lemma w_cap_band : (0 < FACTOR)%Z -> lost_exit_valid x -> (1 <= BOUND)%nat ->
+  Lemma w_cap_band : lost_exit_valid x -> (1 <= BOUND)%nat ->
     lottery phi (Some c) ev stake total = Ok (Taylor Cap) ->
     - (2 * IZR FACTOR * t x (Datatypes.S BOUND)) <= qr ev - exp x <= IZR FACTOR * t x (Datatypes.S BOUND).
   Proof.
-    intros HF Hv HB H. apply lottery_taylor in H. destruct H as (Ht & _ & H).
+    intros Hv HB H. apply lottery_taylor in H. destruct H as (Ht & _ & H).
     revert HB H. generalize BOUND. intros [|b] HB H; [lia|].
-    apply cap_band in H; [| exact HF | rewrite x_real by exact Ht; apply (x_nonneg c ev); exact D
+    apply cap_band in H; [| rewrite x_real by exact Ht; apply (x_nonneg c ev); exact D
                           | rewrite x_real by exact Ht; exact Hv].
     rewrite q_real, x_real in H by (try exact Ht; apply D). exact H.
   Qed.
